@@ -19,7 +19,7 @@ def candidates():
     if CANDIDATES is None:
         CANDIDATES = [type(None), bool, int, float, str, bytes, list, tuple, set, frozenset, collections.deque, dict, collections.defaultdict,
                       collections.OrderedDict, collections.Counter, collections.ChainMap, type({}.keys()), type({}.values()), type({}.items()),
-                      NS['L2'], NS['L0'], NS['L1'], NS['LA'], NS['HasMeth'], NS['GL'], NS['GD'], NS['GS'], NS['GI'], NS['G'], type, RL.UserSeq, RL.UserSet, RL.UserColl,
+                      NS['L2'], NS['L0'], NS['L1'], NS['LA'], NS['HasMeth'], NS['GL'], NS['GLI'], NS['GL2'], NS['GLI3'], NS['GDI'], NS['GD'], NS['GS'], NS['GI'], NS['G'], type, RL.UserSeq, RL.UserSet, RL.UserColl,
                       RL.UserMap, RL.SizedOneShot, RL.OneShot, RL.SizedOnly, RL.Opaque, range, complex]
     return CANDIDATES
 
@@ -98,7 +98,7 @@ class Concretiser:
                 k = NS.get(name) or __builtins__.get(name) if isinstance(__builtins__, dict) else NS.get(name, getattr(__import__('builtins'), name, None))
                 if all((issubclass(k, C)) == _true(m, M.subc(term, zc)) for zc, C in self.uni.classes()): return name
             return 'Opaque'
-        if K in (list, tuple, collections.deque, RL.UserSeq, NS['GL'], range):
+        if K in (list, tuple, collections.deque, RL.UserSeq, NS['GL'], NS['GLI'], NS['GL2'], NS['GLI3'], range):
             items = [self.build(M.item(term, z3.IntVal(i)), depth + 1) for i in range(n)] if n <= 40 else None
             if items is None:
                 special = {0: self.build(M.item(term, z3.IntVal(0)), depth + 1)}
@@ -120,7 +120,7 @@ class Concretiser:
             if K is type({}.values()): return '{' + ', '.join(f'{i}: {x}' for i, x in enumerate(mem)) + '}.values()'
             return f'{ns_name(K)}({body})'
         if K is RL.SizedOnly: return f'SizedOnly({n})'
-        if K in (dict, collections.defaultdict, collections.OrderedDict, collections.Counter, collections.ChainMap, RL.UserMap, type({}.items()), NS['GD'], NS['GI']):
+        if K in (dict, collections.defaultdict, collections.OrderedDict, collections.Counter, collections.ChainMap, RL.UserMap, type({}.items()), NS['GD'], NS['GI'], NS['GDI']):
             if n > 0:
                 k0 = self.build(M.first(term), depth + 1); v0 = self.build(M.mget(term, M.first(term)), depth + 1)
                 body = '{' + f'{k0}: {v0}' + '}'
